@@ -1,5 +1,411 @@
+// Properties whose case is a base run plus derived runs: C14 (allocation-failure placements) and
+// C16 (verbosity x stream matrix incl. stream-failure placements).
 #include "props_common.hpp"
-namespace sim {
-extern const Property kPropsB[] = { { "", nullptr, nullptr } };
-extern const int kPropsBCount = 0;
+
+#include <algorithm>
+
+namespace sim
+{
+
+static const ExecFlags kFlags{};
+
+static std::string op_brief(const OpResult& o)
+{
+    return o.op.parser + " input='" + printable(o.rend.bytes, 120) + "' ws=" + (o.op.skip_ws ? "1" : "0") + " nl=" + (o.op.skip_nl ? "1" : "0") +
+        " buf=" + std::to_string(o.rend.effective_buffer) + " stream=" + std::to_string(o.op.stream) + (o.op.verbose ? " verbose" : "") +
+        (o.op.alloc_fail_at >= 0 ? " alloc_fail_at=" + std::to_string(o.op.alloc_fail_at) : "") +
+        (o.op.stream_fail_after >= 0 ? " stream_fail_after=" + std::to_string(o.op.stream_fail_after) + "/" + std::to_string(o.op.stream_fail_mode) : "");
 }
+
+// ===============================================================================================
+// C14 -- semantic values are moved, never duplicated, leaked or reused (DESIGN 6.5)
+static Plan gen_c14(uint64_t seed, int64_t index, bool thorough)
+{
+    Rng rng(hash_seed(seed, "C14", index));
+    std::vector<std::string> pk = keys_for({ "G1", "G2", "G3", "G4", "G6", "G7", "T1" }, false);
+    std::string key = rng.pick(pk);
+    const ref::Model* m = model_for(grammar_of(key));
+    OpShape sh;
+    sh.budget = thorough ? 40 : 20;
+    sh.p_skip_ws_off = 3; sh.p_skip_nl_off = 5;
+    sh.buffers = { BUF_SIM, BUF_STRING, BUF_VIEW, BUF_CSTRING };
+    sh.streams = { STR_SIM, STR_NONE, STR_OSS };
+    sh.p_verbose = 10;
+    sh.allow_heap = true;
+    PlanOp op;
+    std::string mode;
+    uint64_t k = rng.below(100);
+    if (k < 20) { mode = "fault_free"; op = make_sentence_op(rng, key, sh); }
+    else if (k < 55)
+    {
+        mode = "input_faults";
+        op = make_sentence_op(rng, key, sh);
+        if (rng.chance(2, 3)) add_token_faults(op, rng, rng.range(1, 3), *m); else add_byte_faults(op, rng, rng.range(1, 2), m);
+    }
+    else if (k < 92)
+    {
+        mode = "alloc_enum";
+        sh.budget = thorough ? 24 : 12;
+        op = make_sentence_op(rng, key, sh);
+        if (rng.chance(1, 2)) add_token_faults(op, rng, rng.range(1, 2), *m);
+    }
+    else
+    {
+        mode = "grow";      // growth of the std::vector stacks past their reserved 1024 entries
+        sh.budget = thorough ? 6000 : 2600;
+        sh.buffers = { BUF_SIM, BUF_STRING };
+        sh.p_verbose = 0;
+        std::vector<std::string> deep = keys_for({ "G2", "G3", "G4" }, false);
+        key = rng.pick(deep);
+        op = make_sentence_op(rng, key, sh);
+        for (int tries = 0; tries < 6 && int(op.toks.size()) < 1200; ++tries) op = make_sentence_op(rng, key, sh);
+    }
+    if (rng.chance(1, 3)) op.api = API_CONTEXT_PARSE;
+    return single_op_plan("C14", seed, index, mode, op);
+}
+
+static void judge_ledger(const Plan& p, const OpResult& o, std::vector<Violation>& vs, CaseCtx& cx)
+{
+    const simrt::OpRec& r = o.rec;
+    std::string brief = op_brief(o);
+    std::string counts = " [new=" + std::to_string(r.n_new) + " move=" + std::to_string(r.n_move) + " copy=" + std::to_string(r.n_copy) + " del=" + std::to_string(r.n_del) + " use=" + std::to_string(r.n_use) + "]";
+    if (r.double_del) vs.push_back(make_violation("C14", "destroyed_twice", "a value or object was destroyed twice (" + std::to_string(r.double_del) + "x)" + counts + "; " + brief, p));
+    if (r.ctor_over_live) vs.push_back(make_violation("C14", "constructed_over_live_object", "construction over a live object" + counts + "; " + brief, p));
+    if (r.use_twice) vs.push_back(make_violation("C14", "value_consumed_twice", "one value was handed to two functor calls" + counts + "; " + brief, p));
+    if (r.use_moved_from) vs.push_back(make_violation("C14", "moved_from_value_handed_to_functor", "a functor received a moved-from value" + counts + "; " + brief, p));
+    if (r.use_dead) vs.push_back(make_violation("C14", "destroyed_value_used", "a destroyed value was used" + counts + "; " + brief, p));
+    if (r.copy_in_lib) vs.push_back(make_violation("C14", "value_copied", "the library copied a semantic value " + std::to_string(r.copy_in_lib) + "x instead of moving it" + counts + "; " + brief, p));
+    bool exceptional = o.out.exc != 0;
+    if (!exceptional && r.live_after != 0)
+        vs.push_back(make_violation("C14", "value_leaked", std::to_string(r.live_after) + " object(s) still alive after the call returned and its result was dropped" + counts + "; " + brief, p));
+    if (cx.st)
+    {
+        Stats& st = *cx.st;
+        st.add("values_created", r.n_new);
+        st.add("values_moved", r.n_move);
+        st.add("functor_argument_uses", r.n_use);
+        if (exceptional && r.live_after == 0) st.add("observation.ledger_balanced_on_exceptional_exit");
+        if (exceptional && r.live_after != 0) st.add("observation.ledger_unbalanced_on_exceptional_exit");
+        if (r.alloc_fault_in_functor) st.add("probe.allocation_failed_inside_functor");
+        if (r.alloc_fault_fired && !r.alloc_fault_in_functor) st.add("probe.allocation_failed_inside_library");
+    }
+}
+
+static std::vector<Violation> case_c14(const Plan& p, CaseCtx& cx)
+{
+    std::vector<Violation> vs;
+    RunResult rr = exec_plan(p, kFlags);
+    const OpResult& o = rr.tasks[0][0];
+    account(cx, p, rr, o.rend.faults_fired > 0 || o.rec.alloc_fault_fired || p.mode == "grow");
+    if (cx.st)
+    {
+        cx.st->add("mode." + p.mode);
+        if (o.out.exc == 0)
+        {
+            ref::RefResult r = ref_for(o);
+            if (r.accepted && r.syntax_errors == 0) cx.st->add("path.success");
+            else if (r.accepted) cx.st->add("path.recovered");
+            else if (r.syntax_errors && o.model->g.has_error_rules) cx.st->add("path.recovery_failed");
+            else cx.st->add("path.failure");
+            if (r.discarded_terms || r.rec_pops_max > 0) cx.st->add("probe.values_discarded_during_recovery");
+            if (r.max_depth > 1024) cx.st->add("probe.stack_growth_past_initial_capacity");
+        }
+    }
+    judge_ledger(p, o, vs, cx);
+    if (p.mode != "alloc_enum" || !vs.empty()) return vs;
+    // every allocation of the fault-free run fails once (exhaustive when below the cap, else seeded sample)
+    int64_t A = o.rec.allocs;
+    int64_t cap = cx.thorough ? 200 : 64;
+    std::vector<int64_t> ks;
+    if (A <= cap) { for (int64_t k = 0; k < A; ++k) ks.push_back(k); if (cx.st) cx.st->add("alloc_enum.exhaustive_cases"); }
+    else
+    {
+        Rng rng(hash_seed(p.seed, "C14.alloc", p.index));
+        for (int64_t i = 0; i < cap; ++i) ks.push_back(int64_t(rng.below(uint64_t(A))));
+        std::sort(ks.begin(), ks.end()); ks.erase(std::unique(ks.begin(), ks.end()), ks.end());
+        if (cx.st) cx.st->add("alloc_enum.sampled_cases");
+    }
+    for (int64_t k : ks)
+    {
+        Plan d = p;
+        d.mode = "alloc_single";
+        d.tasks[0].ops[0].alloc_fail_at = k;
+        RunResult r2 = exec_plan(d, kFlags);
+        const OpResult& o2 = r2.tasks[0][0];
+        account(cx, d, r2, o2.rec.alloc_fault_fired);
+        if (cx.st) cx.st->add("mode.alloc_single");
+        judge_ledger(d, o2, vs, cx);
+        if (!vs.empty()) break;
+    }
+    return vs;
+}
+
+// ===============================================================================================
+// C16 -- verbosity and stream choice never change the outcome; the trace is truthful (DESIGN 6.7)
+static Plan gen_c16(uint64_t seed, int64_t index, bool thorough)
+{
+    Rng rng(hash_seed(seed, "C16", index));
+    std::vector<std::string> pk = keys_for({ "G1", "G2", "G3", "G4", "G5", "G6", "G7", "G8", "G9", "T1" });
+    std::string key = rng.pick(pk);
+    const ref::Model* m = model_for(grammar_of(key));
+    OpShape sh;
+    sh.budget = thorough ? 30 : 14;
+    sh.ws_rich = rng.chance(1, 3);
+    sh.buffers = { BUF_SIM, BUF_STRING, BUF_VIEW, BUF_CSTRING };
+    sh.streams = { STR_SIM };
+    PlanOp op = make_sentence_op(rng, key, sh);
+    // lexemes never contain '\n' here: a Shift line would not be parseable unambiguously
+    for (PTok& t : op.toks) for (char& c : t.lex) if (c == '\n') c = '?';
+    std::string mode;
+    uint64_t k = rng.below(100);
+    if (k < 35) mode = "valid";
+    else if (k < 75) { mode = "token_faults"; add_token_faults(op, rng, rng.range(1, 3), *m); }
+    else { mode = "byte_faults"; add_byte_faults(op, rng, rng.range(1, 2), m); }
+    if (rng.chance(1, 4)) op.api = API_CONTEXT_PARSE;
+    if (m->g.custom_lexer && rng.chance(1, 4)) op.lex_fail_call = int64_t(rng.below(op.toks.size() + 1));
+    return single_op_plan("C16", seed, index, mode, op);
+}
+
+struct Obs
+{
+    bool has_value; uint64_t digest; int exc;
+    std::vector<std::pair<int, uint64_t>> reds;
+    std::vector<std::pair<int, int64_t>> termfs;
+    uint64_t ctx_acc; int ctx_touches;
+    bool operator==(const Obs& o) const
+    {
+        return has_value == o.has_value && digest == o.digest && exc == o.exc && reds == o.reds && termfs == o.termfs && ctx_acc == o.ctx_acc && ctx_touches == o.ctx_touches;
+    }
+};
+static Obs observe(const OpResult& o)
+{
+    Obs b;
+    b.has_value = o.out.has_value; b.digest = o.out.digest; b.exc = o.out.exc;
+    for (const auto& r : o.rec.reds) b.reds.emplace_back(r.rule, r.digest);
+    for (const auto& t : o.rec.termfs) b.termfs.emplace_back(t.term, t.off);
+    b.ctx_acc = o.out.ctx_acc; b.ctx_touches = o.out.ctx_touches;
+    return b;
+}
+static std::string obs_diff(const Obs& a, const Obs& b)
+{
+    if (a.has_value != b.has_value) return "has_value differs";
+    if (a.exc != b.exc) return "exception state differs";
+    if (a.digest != b.digest) return "result value differs";
+    if (a.reds != b.reds) return "sequence of functor calls differs (" + std::to_string(a.reds.size()) + " vs " + std::to_string(b.reds.size()) + ")";
+    if (a.termfs != b.termfs) return "sequence of term-functor calls differs";
+    return "context effects differ";
+}
+
+static std::vector<std::string> split_lines(const std::string& s)
+{
+    std::vector<std::string> r;
+    size_t i = 0;
+    while (i < s.size())
+    {
+        size_t e = s.find('\n', i);
+        if (e == std::string::npos) { r.push_back(s.substr(i)); break; }
+        r.push_back(s.substr(i, e - i + 1));
+        i = e + 1;
+    }
+    return r;
+}
+
+static std::vector<Violation> case_c16(const Plan& p, CaseCtx& cx)
+{
+    std::vector<Violation> vs;
+    auto variant = [&](bool verbose, int stream, int64_t fail_after, int fail_mode) -> Plan
+    {
+        Plan d = p;
+        PlanOp& o = d.tasks[0].ops[0];
+        o.verbose = verbose; o.stream = stream; o.stream_fail_after = fail_after; o.stream_fail_mode = fail_mode;
+        return d;
+    };
+    // reference configuration: quiet, no stream
+    Plan pA = variant(false, STR_NONE, -1, 0);
+    RunResult rA = exec_plan(pA, kFlags);
+    account(cx, pA, rA, rA.tasks[0][0].rend.faults_fired > 0);
+    const OpResult oA = rA.tasks[0][0];
+    if (oA.out.exc == 2) return vs;
+    Obs A = observe(oA);
+    std::string brief = op_brief(oA);
+    if (cx.st) cx.st->add("mode." + p.mode);
+
+    auto check_same = [&](const char* what, const Plan& dp, const OpResult& o) -> bool
+    {
+        Obs B = observe(o);
+        if (B == A) return true;
+        vs.push_back(make_violation("C16", "outcome_depends_on_options",
+            std::string("outcome under ") + what + " differs from quiet/no_stream: " + obs_diff(A, B) + "; " + op_brief(o), p));
+        (void)dp;
+        return false;
+    };
+
+    Plan pB = variant(false, STR_SIM, -1, 0);
+    RunResult rB = exec_plan(pB, kFlags); account(cx, pB, rB, false);
+    const OpResult oB = rB.tasks[0][0];
+    if (!check_same("quiet/ostream", pB, oB)) return vs;
+
+    Plan pC = variant(true, STR_SIM, -1, 0);
+    RunResult rC = exec_plan(pC, kFlags); account(cx, pC, rC, false);
+    const OpResult oC = rC.tasks[0][0];
+    if (!check_same("verbose/ostream", pC, oC)) return vs;
+
+    Plan pD = variant(true, STR_NONE, -1, 0);
+    RunResult rD = exec_plan(pD, kFlags); account(cx, pD, rD, false);
+    if (!check_same("verbose/no_stream", pD, rD.tasks[0][0])) return vs;
+
+    Plan pE = variant(true, STR_OSS, -1, 0);
+    RunResult rE = exec_plan(pE, kFlags); account(cx, pE, rE, false);
+    const OpResult oE = rE.tasks[0][0];
+    if (!check_same("verbose/std::ostringstream", pE, oE)) return vs;
+    if (oE.out.oss_text != oC.rec.wrote)
+    {
+        vs.push_back(make_violation("C16", "stream_type_changes_text", "verbose text differs between two std::ostream targets; " + brief, p));
+        return vs;
+    }
+
+    const std::string& quiet = oB.rec.wrote;
+    const std::string& loud = oC.rec.wrote;
+
+    // (b) the non-verbose messages appear unchanged, in order, among the verbose lines
+    {
+        ref::RefResult r = ref_for(oC);
+        // message boundaries come from the reference when it agrees on the quiet text; otherwise split on '\n'
+        std::vector<std::string> msgs;
+        std::string cat; for (const std::string& m : r.messages) cat += m;
+        if (cat == quiet) msgs = r.messages; else msgs = split_lines(quiet);
+        size_t pos = 0; bool ok = true; std::string missing;
+        for (const std::string& m : msgs)
+        {
+            size_t f = loud.find(m, pos);
+            // must start at a line start
+            while (f != std::string::npos && f != 0 && loud[f - 1] != '\n') f = loud.find(m, f + 1);
+            if (f == std::string::npos) { ok = false; missing = m; break; }
+            pos = f + m.size();
+        }
+        if (!ok)
+        {
+            vs.push_back(make_violation("C16", "message_missing_in_verbose_output", "the non-verbose message '" + printable(missing) + "' does not appear (in order) in the verbose output; " + brief, p));
+            return vs;
+        }
+        if (cx.st && !msgs.empty()) cx.st->add("messages_located_in_trace", int64_t(msgs.size()));
+
+        // (c) truthfulness
+        bool newline_in_lexeme = false;
+        for (const ref::Token& t : r.tokens) for (int64_t i = 0; i < t.len; ++i) if (oC.rend.bytes[size_t(t.off + i)] == '\n') newline_in_lexeme = true;
+        std::vector<TraceLine> tl; std::string perr;
+        if (newline_in_lexeme) { if (cx.st) cx.st->add("unjudged.newline_inside_lexeme"); }
+        else if (!parse_trace(loud, tl, perr))
+        {
+            vs.push_back(make_violation("C16", "trace_unparseable", "verbose output is not a sequence of trace records: " + perr + "; " + brief, p));
+            return vs;
+        }
+        else
+        {
+            // (c1) against the callback seam: reductions traced == functors run (rules that have a functor)
+            std::vector<int> traced, called;
+            const ref::GrammarSpec& g = oC.model->g;
+            for (const TraceLine& t : tl)
+                if (t.k == TraceLine::REDUCE && t.n >= 0 && size_t(t.n) < g.rules.size() && g.rules[size_t(t.n)].ftor != ref::F_DEFAULT) traced.push_back(int(t.n));
+            for (const auto& rd : oC.rec.reds) called.push_back(rd.rule);
+            if (traced != called)
+            {
+                size_t i = 0; while (i < traced.size() && i < called.size() && traced[i] == called[i]) ++i;
+                vs.push_back(make_violation("C16", "trace_disagrees_with_callbacks",
+                    "reductions in the trace and functor calls differ at #" + std::to_string(i) + " (trace " + (i < traced.size() ? "rule " + std::to_string(traced[i]) : std::string("ends")) +
+                    ", callbacks " + (i < called.size() ? "rule " + std::to_string(called[i]) : std::string("end")) + "); " + brief, p));
+                return vs;
+            }
+            if (g.custom_lexer)
+            {
+                int64_t rec = 0, answered = 0;
+                for (const TraceLine& t : tl) if (t.k == TraceLine::RECOGNIZED && t.s != "<eof>") ++rec;
+                for (const auto& lx : oC.rec.lexes) if (lx.idx >= 0) ++answered;
+                if (rec != answered)
+                {
+                    vs.push_back(make_violation("C16", "trace_disagrees_with_callbacks", "trace shows " + std::to_string(rec) + " recognised terms, the lexer delivered " + std::to_string(answered) + "; " + brief, p));
+                    return vs;
+                }
+            }
+            if (cx.st) cx.st->add("trace_reductions_checked_against_callbacks", int64_t(traced.size()));
+
+            // (c2) against the documented driver run over the parser's own table
+            if (!r.step_limit)
+            {
+                struct A4 { int k; int64_t n; std::string s; };
+                std::vector<A4> got, want;
+                bool eof_seen = false;
+                for (const TraceLine& t : tl)
+                {
+                    if (t.k == TraceLine::RECOGNIZED) { if (t.s == "<eof>") { if (eof_seen) continue; eof_seen = true; } got.push_back(A4{ 0, 0, t.s }); }
+                    else if (t.k == TraceLine::SHIFT) got.push_back(A4{ 1, t.n, t.s });
+                    else if (t.k == TraceLine::REDUCE) got.push_back(A4{ 2, t.n, "" });
+                    else if (t.k == TraceLine::GOTO) got.push_back(A4{ 3, t.n, "" });
+                }
+                for (const ref::Act& a : r.acts)
+                {
+                    if (a.k == ref::Act::RECOGNIZED) want.push_back(A4{ 0, 0, a.s });
+                    else if (a.k == ref::Act::SHIFT || a.k == ref::Act::SHIFT_ERR) want.push_back(A4{ 1, a.a, a.s });
+                    else if (a.k == ref::Act::REDUCE) want.push_back(A4{ 2, a.a, "" });
+                    else if (a.k == ref::Act::GOTO) want.push_back(A4{ 3, a.a, "" });
+                }
+                size_t i = 0;
+                while (i < got.size() && i < want.size() && got[i].k == want[i].k && got[i].n == want[i].n && got[i].s == want[i].s) ++i;
+                if (i < got.size() || i < want.size())
+                {
+                    static const char* const kn[] = { "Recognized", "Shift", "Reduce", "Goto" };
+                    auto d = [&](const std::vector<A4>& v) { return i < v.size() ? std::string(kn[v[i].k]) + " " + std::to_string(v[i].n) + " '" + printable(v[i].s, 40) + "'" : std::string("<end>"); };
+                    vs.push_back(make_violation("C16", "trace_disagrees_with_actions",
+                        "action #" + std::to_string(i) + ": trace says " + d(got) + ", the driver over the parser's own table does " + d(want) + "; " + brief, p));
+                    return vs;
+                }
+                if (cx.st) cx.st->add("trace_actions_checked_against_model", int64_t(got.size()));
+            }
+        }
+    }
+
+    // (d) stream failures: anywhere, any way -- the outcome must not change
+    {
+        std::vector<std::pair<int64_t, int>> cuts;
+        cuts.emplace_back(0, 0); cuts.emplace_back(0, 1);
+        size_t cap = cx.thorough ? 40 : 10;
+        std::vector<int64_t> bounds;
+        for (size_t i = 0; i < loud.size(); ++i) if (loud[i] == '\n') bounds.push_back(int64_t(i) + 1);
+        Rng rng(hash_seed(p.seed, "C16.cuts", p.index));
+        if (bounds.size() + 2 <= cap) { for (int64_t b : bounds) cuts.emplace_back(b, int(rng.below(2))); if (cx.st) cx.st->add("stream_fail.line_boundaries_exhaustive"); }
+        else for (size_t i = 0; i < cap / 2; ++i) cuts.emplace_back(bounds[size_t(rng.below(bounds.size()))], int(rng.below(2)));
+        for (size_t i = 0; i < cap / 2 && !loud.empty(); ++i) cuts.emplace_back(int64_t(rng.below(loud.size())), int(rng.below(2)));
+        for (const auto& c : cuts)
+        {
+            bool verbose = !(c.first == 0 && quiet.size() > 0 && rng.chance(1, 2));
+            Plan d = variant(verbose, STR_SIM, c.first, c.second);
+            RunResult r2 = exec_plan(d, kFlags);
+            const OpResult& o2 = r2.tasks[0][0];
+            account(cx, d, r2, o2.rec.wr_failed);
+            Obs B = observe(o2);
+            if (!(B == A))
+            {
+                vs.push_back(make_violation("C16", "outcome_depends_on_stream_state",
+                    "stream failing after " + std::to_string(c.first) + " byte(s) (mode " + std::to_string(c.second) + ") changed the outcome: " + obs_diff(A, B) + "; " + op_brief(o2), p));
+                return vs;
+            }
+            if (cx.st)
+            {
+                const std::string& full = verbose ? loud : quiet;
+                if (o2.rec.wr_failed) { bool mid = c.first > 0 && size_t(c.first) < full.size() && full[size_t(c.first) - 1] != '\n'; if (mid) cx.st->add("probe.stream_failed_in_the_middle_of_a_message"); }
+                if (o2.rec.wrote.size() <= full.size() && full.compare(0, o2.rec.wrote.size(), o2.rec.wrote) == 0) cx.st->add("observation.accepted_bytes_are_prefix_of_healthy_output");
+                else cx.st->add("observation.accepted_bytes_not_a_prefix");
+            }
+        }
+    }
+    return vs;
+}
+
+// ===============================================================================================
+extern const Property kPropsB[] = {
+    { "C14", &gen_c14, &case_c14 },
+    { "C16", &gen_c16, &case_c16 },
+};
+extern const int kPropsBCount = 2;
+
+}  // namespace sim
